@@ -5,9 +5,9 @@ INVARIANT Inv RevRev
 PROPERTY CloneIndependent FailedPushUnchanged
 ACTION_CONSTRAINT Emit
 CONSTANTS
-  MaxLen = 4
+  MaxLen = 3
   Rich = TRUE
   KindsUsed <- KindsClone
-  LayoutsUsed <- LayoutsSmall
+  LayoutsUsed <- LayoutsAll
   OpsUsed <- OpsC16
   TailOps <- TailC16
